@@ -40,7 +40,7 @@ CA(script, end, cc, inputs, self, t, gas) == Case("A", script, end, cc, 0, 0, S1
 AllSel == [q \in 1..18 |-> Fs(q - 1, 0, 0)]
 Indexed == <<Fs(12, 0, 0), Fs(12, 1, 0), Fs(12, 2, 0), Fs(12, 3, 0), F(U(12), Hi32, Z, Z, 24), Fs(13, 2, 0), F(U(13), U(2), Z, U(100), 24), F(U(13), U(2), Z, UMax, 8),
              Fs(3, 0, 0), Fs(3, 0, 1), Fs(3, 0, 2), Fs(3, 1, 0), Fs(3, 2, 0), Fs(3, 3, 0), Fs(4, 0, 0), Fs(4, 1, 0), Fs(4, 2, 0),
-             Fs(5, 0, 0), Fs(5, 1, 1), Fs(5, 1, 2), Fs(6, 0, 0), Fs(6, 1, 0), F(U(5), U(1), Z, U(4100), 24), F(U(11), Z, Z, U(60), 40)>>
+             Fs(5, 0, 0), Fs(5, 1, 1), Fs(5, 1, 2), Fs(6, 0, 0), Fs(6, 1, 0), F(U(5), U(1), Z, U(4100), 24), F(U(11), Z, Z, U(60), 40), F(U(12), Z, Z, U(40), 24), F(U(12), U(1), Z, U(40), 24)>>
 \* identifiers the invocation's table does not offer, then gas and log (a defined call with junk arguments would just panic)
 Unknowns(kind) == (IF kind = "A" THEN <<>> ELSE <<CallOp(U(2), U(9)), CallOp(U(17), U(9)), CallOp(U(4), U(9))>>)
                   \o (IF kind = "R" THEN <<>> ELSE <<CallOp(U(6), U(9)), CallOp(U(7), U(9)), CallOp(U(12), U(9))>>)
